@@ -368,9 +368,10 @@ func runFloodDelayed(seed uint64, idx int, fc floodCfg) {
 	var times []time.Time
 	conn.onWrite = func(b []byte, to *net.UDPAddr) { mu.Lock(); times = append(times, time.Now()); mu.Unlock() }
 	victim := udp([]byte{10, 0, 0, 1}, 1111)
-	h := &delayHandler{needle: "10.0.0.1:1111", hold: make(chan struct{}), hit: make(chan struct{})}
-	logger := log.NewLogger()
+	h := &delayHandler{needle: "replying to \"10.0.0.1:1111\"", hold: make(chan struct{}), hit: make(chan struct{})}
+	var logger log.Logger
 	logger.SetHandlers(h)
+	logger = logger.WithFilterLevel(log.Debug)
 	lim := rate.NewLimiter(rate.Limit(fc.rate), fc.burst)
 	s, err := dht.NewServer(&dht.ServerConfig{NodeId: root, Conn: conn, NoSecurity: true, SendLimiter: lim,
 		StartingNodes: func() ([]dht.Addr, error) { return nil, nil }, Logger: logger})
@@ -387,10 +388,19 @@ func runFloodDelayed(seed uint64, idx int, fc floodCfg) {
 	case <-h.hit:
 	case <-time.After(2 * time.Second):
 	}
+	// the held reply idles for two seconds (the bucket is full anyway), then a flood drains the bucket,
+	// then the held reply reaches the limiter, then a second flood arrives
+	time.Sleep(2 * time.Second)
+	held := false
+	select {
+	case <-h.hit:
+		held = true
+	default:
+	}
 	for i := 0; i < fc.n; i++ {
 		ping(randAddr(r, 0), fmt.Sprint("a", i))
 	}
-	time.Sleep(1200 * time.Millisecond)
+	time.Sleep(20 * time.Millisecond)
 	close(h.hold)
 	time.Sleep(30 * time.Millisecond)
 	for i := 0; i < fc.n; i++ {
@@ -400,17 +410,25 @@ func runFloodDelayed(seed uint64, idx int, fc floodCfg) {
 	mu.Lock()
 	ts := append([]time.Time(nil), times...)
 	mu.Unlock()
-	for j := range ts {
-		win := ts[j].Sub(start).Seconds()
-		allowed := float64(fc.burst) + fc.rate*win + 1
-		if float64(j+1) > allowed {
-			oracle("C20", "datagrams-exceed-burst-plus-rate-times-window:delayed-reply", "case=%d %+v window=%.3fs sent=%d allowed=%.2f", idx, fc, win, j+1, allowed)
-			break
+	sort.Slice(ts, func(i, j int) bool { return ts[i].Before(ts[j]) })
+	// without WaitToReply a write follows its Allow() at once: every window [t_i, t_j] is bounded
+	// (50 ms of scheduling tolerance, one datagram of slack)
+	func() {
+		for i := range ts {
+			for j := i; j < len(ts); j++ {
+				win := ts[j].Sub(ts[i]).Seconds()
+				allowed := float64(fc.burst) + fc.rate*(win+0.05) + 1
+				if float64(j-i+1) > allowed {
+					oracle("C20", "datagrams-exceed-burst-plus-rate-times-window:delayed-reply", "case=%d %+v window=%.3fs sent=%d allowed=%.2f", idx, fc, win, j-i+1, allowed)
+					return
+				}
+			}
 		}
-	}
+	}()
+	_ = start
 	s.Close()
 	conn.Close()
-	emit("# flood %d %+v written=%d", idx, fc, len(ts))
+	emit("# flood %d %+v written=%d reply-was-held=%v", idx, fc, len(ts), held)
 	emit("mend %d => ok", idx)
 }
 
